@@ -12,7 +12,9 @@ CFG = {'assumptions': ['8*len(key) < 2^31 and len(keys) < 2^31 (Go int/int32 len
         'sigbits.CountPrefixes/single': 'sigbits.New(keys).CountPrefixes(s, s+1, m) (a range of one key)',
         'sigbits.CountPrefixes/counter': 'sigbits.New(prefix + big-endian counter keys).CountPrefixes',
         'sigbits.CountPrefixes/counter-big': 'sigbits.New(prefix + big-endian counter keys).CountPrefixes (linear oracle)',
-        'sigbits.SigBits/queries': 'sb := sigbits.New(keys); a sequence of sb.CountPrefixes queries on that one object'},
+        'sigbits.SigBits/queries': 'sb := sigbits.New(keys); a sequence of sb.CountPrefixes queries on that one object',
+        'sigbits.SigBits/session': 'sb := sigbits.New(keys); sb.CountPrefixes queries interleaved with '
+                                   'sigbits.ShardByPrefix(keys, n) and sigbits.FirstDiffBits(keys) on the SAME []string'},
  'rule': 'cases = exhaustive sweeps (all ordered pairs of strings of length 0..2 over {00,01,80,ff,a}; shared prefixes of '
          '0/1/7/8/9/15/16/17/23/24/25 bytes x all pairs of 9 short tails; a flip of every bit of a 20-byte key; key vs key + 0..10 '
          'NUL bytes; CountPrefixes on every 2..4-key subset of a 7-string universe x all sub-ranges x m in {1,2,8,9,40}; '
@@ -20,7 +22,10 @@ CFG = {'assumptions': ['8*len(key) < 2^31 and len(keys) < 2^31 (Go int/int32 len
          'every ordered pair of queries (incl. the same twice) on ONE SigBits object over every 2..3-key subset of a '
          '6-string universe; key sets of 300..4096 (thorough: up to 140000) keys = prefix + big-endian counter, so that '
          'more than 2^8 (2^16) adjacent pairs share one first-difference bit) + random query sequences of 2..7 queries '
-         'on one object (repeated, same range with another m, overlapping, whole range) + '
+         'on one object (repeated, same range with another m, overlapping, whole range) + cross-function sessions '
+         '(query / ShardByPrefix on the same slice / FirstDiffBits / query; exhaustive over 2..4-key subsets of a 6-string '
+         'universe, random 3..8 steps) + counter key sets of 8192, 9001 and 10000 keys (the slowest cases of a quick run, '
+         're-run by the harness under GOMAXPROCS 3, 33, 97) + '
          'structured random strictly ascending key sets (flat / extension chain / differing in byte 0 / trie-shaped, over '
          '{a,b}, {00,01,a}, {00,80,ff}, full bytes, shared prefixes crossing the 8-byte chunks, empty key, key + NULs), '
          'FirstDiffBits also on shuffled copies with a repeated key; a FirstDiffBits case is non-trivial when it has >= 2 keys '
